@@ -287,6 +287,31 @@ def h_guards(ctx, cfg):
         except ValueError:
             ctx.prove(True, "out-of-range access is refused")
     ctx.prove(h.get_theta(0) is a and h.get_theta(1) is b, "get_theta returns samples in insertion order")
+    # the same refusals on a partly filled collection, on a reloaded one and on a concatenation
+    part = core.ThetaHolder(n_thetas=3)
+    part.add_theta(a)
+    for bad in (1, 2, 3, -1):
+        try:
+            part.get_theta(bad)
+            ctx.fail("access to a sample that was never stored accepted (partly filled collection)", key="out-of-range access accepted")
+        except ValueError:
+            ctx.prove(True, "out-of-range access is refused")
+    fn = ctx.tmp("guards.h5")
+    h.save_h5(fn)
+    back = core.ThetaHolder.load_h5(fn)
+    both = core.ThetaHolder.concat([h, back])
+    for what, x, n in (("reloaded collection", back, 2), ("concatenation", both, 4)):
+        try:
+            x.add_theta(c)
+            ctx.fail("%s grew beyond its declared size" % what, key="collection grew beyond its declared size")
+        except ValueError:
+            ctx.prove(len(x.thetas) == n, "holder refuses to grow beyond its declared size")
+        for bad in (-1, n):
+            try:
+                x.get_theta(bad)
+                ctx.fail("out-of-range access accepted (%s)" % what, key="out-of-range access accepted")
+            except ValueError:
+                ctx.prove(True, "out-of-range access is refused")
     try:
         core.ThetaHolder.concat([])
         ctx.fail("concat of nothing accepted")
